@@ -94,7 +94,7 @@ RECURSIVE WF(_)
 WF(v) == IF IsRec(v)
          THEN /\ \A i \in 1..Len(v.attrs) : WF(v.attrs[i].v)
               /\ \A i \in 1..Len(v.items) : WF(v.items[i].v) /\ (v.items[i].slot => WF(v.items[i].key))
-         ELSE v.k \in {"x", "f", "b", "s", "t", "d"} \cup IntClasses
+         ELSE v.k \in {"x", "f", "b", "s", "t", "r", "d"} \cup IntClasses
 WellFormed == WF(doc)
 
 \* instances of the same type with the same rendering: no reader can tell them apart
@@ -106,7 +106,11 @@ ExcuseF1 == "F1" \in Excused /\ \E i \in 1..Len(FieldsOf(TypeOf(ty))) :
 \* F3: a body field of type Value that holds the empty record (read back as extant)
 ExcuseF3 == "F3" \in Excused /\ \E i \in 1..Len(Live(FieldsOf(TypeOf(ty)))) :
                 LET f == Live(FieldsOf(TypeOf(ty)))[i] IN f.role = "body" /\ f.ty = VAL /\ inst.v[i] = Rec(<<>>, <<>>)
-ReadInvertsRender == (ty # "" /\ hist = <<>> /\ sess = <<>>) => (ReadKey(ty, doc) = Ok(inst) \/ RenderClash \/ ExcuseF1 \/ ExcuseF3)
+\* F12: a body field of type Duration / RetryStrategy
+ExcuseF12 == "F12" \in Excused /\ \E i \in 1..Len(FieldsOf(TypeOf(ty))) :
+                LET f == FieldsOf(TypeOf(ty))[i] IN f.role = "body" /\ f.ty \in {Named("Duration"), Named("RetryStrategy")}
+ReadInvertsRender == (ty # "" /\ hist = <<>> /\ sess = <<>>) =>
+                        (ReadKey(ty, doc) = Ok(inst) \/ RenderClash \/ ExcuseF1 \/ ExcuseF3 \/ ExcuseF12)
 
 Tagged(k) == TypeOf(k).kind \in {"struct", "enum"}
 WrongTagRejected == (ty # "" /\ hist = <<>> /\ sess = <<>> /\ Tagged(ty)) => \A m \in Local("wrongTag", doc) : ~ReadKey(ty, m).ok
